@@ -7,7 +7,7 @@ for log in sys.argv[1:]:
     for block in re.split(r'^=== mutant ', txt, flags=re.M)[1:]:
         name = block.split('\n',1)[0].strip()
         src = f'/tmp/wt/{name}'
-        out_name = name if not name.startswith('R2') else name[2:] + '-r2'
+        out_name = name[2:] + '-r' + name[1] if name[0] == 'R' else name
         if not os.path.exists(f'{src}/mutant.diff'): continue
         pr = re.search(r'pristine\+demo:\s*(.*)', block); mu = re.search(r'mutant\+demo:\s*(.*)', block)
         demos = re.search(r'demo tests:\s*(.*)', block)
